@@ -202,13 +202,16 @@ func (v *inputFieldDefaultInjectionVisitor) jsonWalker(fieldType int, defaultVal
 		if err != nil {
 			return
 		}
+		// the position of this item in the list, whether or not it is processed below
+		index := i
+		i++
 		if listOfList && dataType == jsonparser.Array {
 			newVal, replaced, err := v.processObjectOrListInput(typeDoc.Types[fieldType].OfType, value, typeDoc)
 			if err != nil {
 				return
 			}
 			if replaced {
-				*finalVal, err = jsonparser.Set(defaultValue, newVal, fmt.Sprintf("[%d]", i))
+				*finalVal, err = jsonparser.Set(defaultValue, newVal, fmt.Sprintf("[%d]", index))
 				defaultValue = *finalVal
 				if err != nil {
 					return
@@ -221,17 +224,14 @@ func (v *inputFieldDefaultInjectionVisitor) jsonWalker(fieldType int, defaultVal
 				return
 			}
 			if replaced {
-				*finalVal, err = jsonparser.Set(defaultValue, newVal, fmt.Sprintf("[%d]", i))
+				*finalVal, err = jsonparser.Set(defaultValue, newVal, fmt.Sprintf("[%d]", index))
 				defaultValue = *finalVal
 				if err != nil {
 					return
 				}
 				*finalValueReplaced = true
 			}
-		} else {
-			return
 		}
-		i++
 	}
 
 }
